@@ -1550,6 +1550,10 @@ pub fn type_table() -> Vec<TypeEntry> {
     entry!(v, "BTreeMap<u8,bool>", BTreeMap<u8, bool>, 24);
     v.last_mut().unwrap().values = vals_arr::<BTreeMap<u8, bool>>;
     entry!(v, "BTreeMap<String,(u8,Option<i64>)>", BTreeMap<String, (u8, Option<i64>)>, 64);
+    entry!(v, "Vec<BTreeMap<u8,u8>>", Vec<BTreeMap<u8, u8>>, 64);
+    entry!(v, "BTreeMap<u8,BTreeMap<u8,bool>>", BTreeMap<u8, BTreeMap<u8, bool>>, 64);
+    entry!(v, "BTreeMap<u8,Vec<u8>>", BTreeMap<u8, Vec<u8>>, 64);
+    entry!(v, "Vec<HashMap<u8,u8>>", Vec<HashMap<u8, u8>>, 64);
     entry!(v, "HashMap<u8,String>", HashMap<u8, String>, 64);
     entry!(v, "HashMap<i8,u8,Fixed>", HashMap<i8, u8, FixedHasher>, 24);
     entry!(v, "Range<u8>", Range<u8>);
